@@ -137,6 +137,9 @@ fn head_matches(rq: &Request, e: &ExpHead) -> bool {
 fn client_reader(sh: Arc<Shared>, c: usize, cli: Cli) {
     let heads: Vec<bool> = sh.sc.conns[c].msgs.iter().map(|m| m.ishead).collect();
     let mut p = httpc::Parser::new(heads);
+    for (m, msg) in sh.sc.conns[c].msgs.iter().enumerate() {
+        p.head_by_xid.insert(format!("{}.{}", c, m), msg.ishead);
+    }
     let mut buf = vec![0u8; 8192];
     let mut k = 0usize;
     let emit = |k: &mut usize, f: &httpc::Frame| {
